@@ -191,7 +191,7 @@ func checkText(c Case, o *ev.Outcome) {
 	}
 }
 
-var anyPos = regexp.MustCompile(`([A-Za-z0-9_.\-]+\.yang):(-?\d+):(-?\d+)`)
+var anyPos = regexp.MustCompile(`([^\s:"]+\.yang):(-?\d+):(-?\d+)`)
 
 func checkModule(c Case, o *ev.Outcome) {
 	o.Key = fmt.Sprintf("m|%s|%v", c.Fault, c.Files)
@@ -566,6 +566,20 @@ func gen(t *rapid.T) Case {
 		if culprit != nil {
 			c.ExpFile, c.ExpLine, c.ExpCol = file, culprit.Line, culprit.Col
 		}
+		if rapid.IntRange(0, 3).Draw(t, "odd-file-names") == 0 {
+			// file names are data: percent signs, directories and other characters must come back unchanged
+			dress := rapid.SampledFrom([]string{"models/ietf%%2D%s", "a%%s-%s", "%%d%%v%s", "dir.d/%s", "x+y~%s", "%%!%s"}).Draw(t, "name-dress")
+			re := func(n string) string { return fmt.Sprintf(dress, n) }
+			for i := range c.Files {
+				c.Files[i].Name = re(c.Files[i].Name)
+			}
+			for i := range c.Base {
+				c.Base[i].Name = re(c.Base[i].Name)
+			}
+			if c.ExpFile != "" {
+				c.ExpFile = re(c.ExpFile)
+			}
+		}
 		return c
 	}
 }
@@ -578,7 +592,7 @@ func TestCheck(t *testing.T) {
 		Level: "exploration",
 		Rule: "three domains. (1) accepted texts: Statement.Location() of every statement against the keyword position computed by the harness's RFC 7950 section 6 reader (characters, 1-based), on all texts of <= L fragments over the 16-fragment alphabet and on printed forests/modules with tabs, multi-byte characters, comments, multi-line strings and CRLF; " +
 			"(2) rejected texts whose first fault is of a listed kind (unexpected }, missing ; or {, quoted keyword, invalid escape, unterminated quote/comment) and that are single-fault in the sense that goyang's one-token look-ahead cannot meet a second lexical fault first: position in the first error line against the position of the offending token/backslash/opener, exhaustive over the same alphabet plus targeted fault injection into printed texts; " +
-			"(3) generated valid modules (+ included submodule) with one injected semantic fault (unknown substatement, missing mandatory substatement, unknown type, unknown grouping, bad range/length, bad enum value): every file:line:col in every returned error must be the start of a statement of that file and some error must lead with the culprit's position. " +
+			"(3) generated valid modules (+ included submodule), a quarter of them under file names with percent signs, directories and other odd characters, with one injected semantic fault (unknown substatement, missing mandatory substatement, unknown type, unknown grouping, bad range/length, bad enum value): every file:line:col in every returned error must be the start of a statement of that file and some error must lead with the culprit's position. " +
 			"Non-trivial = accepted text with >= 2 statements or a statement not at 1:1; any judged rejected text; any module whose fault was reported with a position. Distinct by text / files",
 		Assumptions: []string{
 			"end-of-input reports and cascaded errors after the first line are not judged (property text)",
